@@ -894,6 +894,17 @@ class Assembler:
                 else:
                     close_impl()
                 self.emit_item(e[1], e[2])
+            elif e[0] == "lemma":
+                close_impl()
+                lm = e[1]
+                txt = "/*@L lemma*/ " + strip_vis(lm["sig"].rstrip()) + " /*@E*/ /*@L spec:lemma:" + lm["name"] + ":home*/" \
+                    + self.spec_text(None, lm["spec"], lm["name"], "home") + "/*@E*/ /*@L lemma*/\n" + lm["body"] + "/*@E*/\n"
+                first = self.cur_line()
+                self.emit("\n" + txt)
+                last = self.cur_line()
+                self.funcs.setdefault(lm["name"], []).append({"path": "lemma:" + lm["name"], "mode": "home", "first": first, "last": last,
+                                                               "props": lm["props"], "src_line": lm["line"],
+                                                               "file": os.path.relpath(lm["src"], VERIF), "bodyless": False, "lemma": True})
             elif e[0] == "raw":
                 close_impl()
                 self.emit("\n/*@L raw*/\n" + strip_vis(e[1]) + "\n/*@E*/\n")
